@@ -3,6 +3,8 @@ run against the in-memory store model; object graphs are decoded from symbolic s
 carry symbolic int / float / str / bool payloads."""
 from pathlib import Path
 
+import numpy as np
+
 import ser_common as sc
 
 try:
@@ -240,6 +242,48 @@ def rt_numeric_seq(n: int, a: int, b: int, c: int, tup: bool, wrap: int) -> bool
 
 def real__rt_numeric_seq(n, a, b, c, tup, wrap):
     return _real(_numseq(n, a, b, c, tup, wrap))
+
+
+CPLX_MENU = [1j, 2.5 - 1j, complex(0.0, float("inf")), np.complex64(1 + 2j), np.complex128(-3.5j)]
+CSEQ_MENU = [1, 2**53 + 1, -2**63, 2**63 - 1, np.int64(2**62 + 1), np.uint64(2**64 - 1), 1.5, True, 0.1] + CPLX_MENU
+
+
+def _cplxseq(n, a, b, c, kind, wrap):
+    seq = [CSEQ_MENU[a], CSEQ_MENU[b], CSEQ_MENU[c]][:n]
+    seq = tuple(seq) if kind == 1 else (set(seq) if kind == 2 else seq)
+    o = Obj()
+    o.v = seq if wrap == 0 else ({"q": [seq, "x"]} if wrap == 1 else [seq, "t"])
+    return o
+
+
+def rt_complex_seq(n: int, a: int, b: int, c: int, kind: int, wrap: int) -> bool:
+    """sequences / sets that mix complex members with (large) integers, floats and bools: every member keeps its value
+    (and, since such a sequence is not all-real-numeric, its type)
+
+    pre: 2 <= n <= 3 and 0 <= a < len(CSEQ_MENU) and 0 <= b < len(CSEQ_MENU) and len(CSEQ_MENU) - len(CPLX_MENU) <= c < len(CSEQ_MENU)
+    pre: 0 <= kind <= 2 and 0 <= wrap <= 2 and _fix("a", a) and _fix("kind", kind) and _fix("wrap", wrap) and _fix("n", n)
+    post: __return__ == True
+    """
+    if n == 2:
+        b = c            # at least one member is complex
+    return _rt(_cplxseq(n, a, b, c, kind, wrap), 1, twice=False)
+
+
+def rt_complex_seq__reach(n: int, a: int, b: int, c: int, kind: int, wrap: int) -> bool:
+    """
+    pre: 2 <= n <= 3 and 0 <= a < len(CSEQ_MENU) and 0 <= b < len(CSEQ_MENU) and len(CSEQ_MENU) - len(CPLX_MENU) <= c < len(CSEQ_MENU)
+    pre: 0 <= kind <= 2 and 0 <= wrap <= 2
+    post: __return__ == False
+    """
+    if n == 2:
+        b = c
+    return _rt(_cplxseq(n, a, b, c, kind, wrap), 1, twice=False)
+
+
+def real__rt_complex_seq(n, a, b, c, kind, wrap):
+    if n == 2:
+        b = c
+    return _real(_cplxseq(n, a, b, c, kind, wrap))
 
 
 def rt_nested_objects(depth: int, i: int, s: str, in_list: bool) -> bool:
